@@ -139,6 +139,15 @@ class FuncAnalysis:
                         k.value.value is False:
                     return self.origins(e.args[0]) if e.args else frozenset()
             return frozenset()
+        # dispatch through a registry dict held in a cell: the value may be
+        # what any of the registered functions returns
+        regs = self.an.registry_targets(self, e)
+        if regs:
+            out = frozenset()
+            for tg in regs:
+                out |= self.an.ret_origins_for(tg, self, e.args, {
+                    k.arg: k.value for k in e.keywords if k.arg}, call=None)
+            return out
         target, recv_cls, held = self.an.resolve_call(self, e)
         if target is None:
             return frozenset()
@@ -320,9 +329,23 @@ class FuncAnalysis:
         self._arrayish_cache[name] = res
         return res
 
+    def _range_loop_vars(self):
+        if getattr(self, "_rlv", None) is None:
+            self._rlv = {x.id for n in ast.walk(self.f.node) if isinstance(n, ast.For)
+                         and isinstance(n.iter, ast.Call)
+                         and ast.unparse(n.iter.func) == "range"
+                         for x in ast.walk(n.target) if isinstance(x, ast.Name)}
+        return self._rlv
+
     def mutate(self, base, node, how, pos, index=None, value=None):
         o = self.origins(base)
-        # the base of a store may itself be a basic slice / view chain
+        # the base of a store may itself be a basic slice / view chain; `a[i][j] =
+        # v` with i an integer loop counter stores into the row view a[i]
+        b = base
+        while not o and isinstance(b, ast.Subscript) and isinstance(b.slice, ast.Name) \
+                and b.slice.id in self._range_loop_vars():
+            b = b.value
+            o = self.origins(b)
         if not o:
             return
         self.mutations.append(Mutation(
@@ -684,6 +707,8 @@ def mark_restore_pairs(fa: FuncAnalysis):
 def check(run: Run, prog: Program):
     run.rule("P1", "no in-place edit of an array that aliases a memoised return "
              "value (of this or of a held object), except proven restore pairs")
+    run.rule("P5", "a memoised method does not edit arrays held in the object's own "
+             "state, directly or through a view")
     run.rule("P2", "a public function does not edit storage aliasing a caller's "
              "argument unless its docstring documents it; arrays stored by "
              "reference in a constructor are not edited by queries")
@@ -741,6 +766,23 @@ def check(run: Run, prog: Program):
                             f"place at {mp[pn].where}")
             else:
                 run.oblige("P1", inst, True, nontrivial=True)
+    # --- P5: a memoised method is a query: it does not edit the arrays held in
+    #          the object's own state (directly or through a local view of them)
+    n5 = 0
+    for f in sorted((g for g in prog.functions() if g.cached), key=lambda g: g.qualname):
+        fa = an.analysis(f)
+        n5 += 1
+        bad = [m for m in fa.mutations if not m.tentative and not m.exempt and
+               any(o.startswith("state:") for o in m.origins)]
+        run.oblige("P5", f"{f.qualname}:state-untouched", not bad, sample={
+            "where": f.where, "mutation_sites": len(fa.mutations)})
+        for m in bad:
+            cells = sorted(o[6:] for o in m.origins if o.startswith("state:"))
+            run.add("P5", f"{f.qualname}/state:{cells[0]}/{m.how}", m.where,
+                    f"memoised {f.qualname} edits `{m.target_src}` in place ({m.how}), "
+                    f"which may be (a view of) the object's own array `{cells[0]}`: the "
+                    f"query changes what every other query on the object returns")
+    run.floor("P5 memoised methods analysed", n5, 60, hard=True)
     # --- P2: public entry points mutating a parameter
     for f, d in sorted(an.mut_params.items(), key=lambda kv: kv[0].qualname):
         if not d:
@@ -752,6 +794,29 @@ def check(run: Run, prog: Program):
         documented = bool(DOC_INPLACE.search(doc))
         for pn, m in sorted(d.items()):
             if m.tentative:
+                # `p op= e` on the bare parameter: in place exactly when an array
+                # is passed.  Decided here when the docstring types the parameter
+                # as a scalar (then `op=` only rebinds the local name); otherwise
+                # the function takes arrays as well and edits them
+                scalar = re.search(
+                    r":type\s+%s\s*:\s*(int|number|float|bool|str)\b|"
+                    r":arg\s+(int|number|float|bool|str)\s+%s\b" % (re.escape(pn),
+                                                                     re.escape(pn)), doc)
+                dflt = f.defaults().get(pn)
+                if isinstance(dflt, ast.Constant) and isinstance(
+                        dflt.value, (int, float, complex, str, bool)):
+                    scalar = True       # declared through its default value
+                if scalar or documented or f.name == "__init__":
+                    continue
+                inst = f"{f.qualname}({pn})"
+                run.oblige("P2", inst, False, sample={
+                    "where": m.where, "how": m.how, "documented": False,
+                    "parameter_type": "undeclared"})
+                run.add("P2", f"{f.qualname}/{pn}", m.where,
+                        f"public {f.qualname} updates its parameter `{pn}` with "
+                        f"`{ast.unparse(m.node)[:50]}`: for an array argument this is "
+                        f"an in-place edit of the caller's array (the docstring "
+                        f"neither restricts `{pn}` to scalars nor documents it)")
                 continue
             inst = f"{f.qualname}({pn})"
             run.oblige("P2", inst, documented, sample={
